@@ -85,6 +85,18 @@ def one_case(rng, tmp):
                 descs[2].setdefault('alias', {})[nm] = list(descs[2]['datasets'])[:1]
             else:
                 descs[2]['datasets'][nm] = {'e9': {'v': 0, 'w': [0]}}
+    if nd >= 3 and rng.random() < 0.35:
+        # alias sections only in LATER descriptions (the merged alias table then starts from a later part's dict)
+        pattern = rng.choice([(False, True, True), (False, False, True), (True, False, True), (False, True, False)])
+        taken = {n for d in descs for n in list(d['datasets']) + list(d.get('alias', {}))}
+        for i, (d, has) in enumerate(zip(descs, pattern)):
+            if not has:
+                d.pop('alias', None)
+            elif not d.get('alias'):
+                nm = f'al{i}'
+                if nm not in taken:
+                    d['alias'] = {nm: list(d['datasets'])[:1]}
+                    taken.add(nm)
     pristine = copy.deepcopy(descs)
     all_names = sorted({n for d in descs for n in list(d['datasets']) + list(d.get('alias', {}))}) + ['missing']
     reqs = [rng.choice(all_names) for _ in range(rng.randint(1, 4))]
